@@ -28,6 +28,12 @@ def reset_process_state(overrides: dict | None = None):
     """every run starts from the shipped configuration (progress bars off)"""
     import abtem.core.config as cfg
 
+    try:  # FFTW wisdom is process-global history: the wisdom-hit and wisdom-miss paths execute different abTEM lines
+        import pyfftw
+
+        pyfftw.forget_wisdom()
+    except ImportError:
+        pass
     base = pristine_config()
     cfg.config.clear()
     cfg.config.update(base)
